@@ -91,25 +91,29 @@ Definition xr_dims (ri : run_info) : result sx :=
                              | Some a => indices a | None => [] end in
                  SL [SS n; SL (map SS axes)]) (ri_all_output_names ri))).
 
-(* one complete reload: load_outputs for every output, RunInfo.load, load_xarray_dataset *)
+(* one complete reload: load_outputs for every output, RunInfo.load, load_xarray_dataset
+   (which itself loads every output: a failing load_outputs makes it fail with the same class) *)
 Definition reload (c : case) (w : world) : sx * world :=
-  let step := fun (acc : list sx * world) o =>
-                match load_outputs version_name (snd acc) o with
-                | Ok (v, w') => (fst acc ++ [SL [SS o; SL [SS (s "ok"); match v with Some p => sx_pyv p | None => SNone end]]], w')
-                | Err e => (fst acc ++ [SL [SS o; SErr e]], snd acc)
+  let step := fun (acc : list sx * option err * world) o =>
+                let '(l, fe, w0) := acc in
+                match load_outputs version_name w0 o with
+                | Ok (v, w') => (l ++ [SL [SS o; SL [SS (s "ok"); match v with Some p => sx_pyv p | None => SNone end]]], fe, w')
+                | Err e => (l ++ [SL [SS o; SErr e]], match fe with Some e0 => Some e0 | None => Some e end, w0)
                 end in
-  let '(outs, w1) := fold_left step (output_names c) ([], w) in
+  let '(outs, first_err, w1) := fold_left step (output_names c) ([], None, w) in
   let '(info, w2) :=
     match runinfo_load version_name w1 with
     | Ok (li, w') => (SL [SS (s "ok"); SL [sx_run_info (li_info li); sx_inputs (li_inputs li); sx_defaults (li_defaults li)]], w')
     | Err e => (SErr e, w1)
     end in
   let xr :=
-    match runinfo_load version_name w2 with
-    | Ok (li, _) => if str_eqb (c_xr c) (s "ok")
-                    then match xr_dims (li_info li) with Ok d => SL [SS (s "ok"); d] | Err e => SErr e end
-                    else SL [SS (s "err"); SS (c_xr c)]
-    | Err e => SErr e
+    match runinfo_load version_name w2, first_err with
+    | Err e, _ => SErr e
+    | Ok _, Some e => SErr e
+    | Ok (li, _), None =>
+        if str_eqb (c_xr c) (s "ok")
+        then match xr_dims (li_info li) with Ok d => SL [SS (s "ok"); d] | Err e => SErr e end
+        else SL [SS (s "err"); SS (c_xr c)]
     end in
   (SL [SL outs; info; xr], w2).
 
@@ -149,7 +153,60 @@ Definition files_eqb (a b : files) : bool :=
 
 Definition listing (w : world) : sx := SL (map SS (sort_set (map (fun pc => path_rel (fst pc)) (w_files w)))).
 
-(* observation:  ok [ [returned outputs; RunInfo of the run; inputs; defaults]; listing; load 1; load 2 | "same"; unchanged ] *)
+(* ---------- consistency of what a run recorded with what it stored ---------- *)
+(* A decidable check on the RunInfo and the outputs of a finished run: the recorded MapSpec strings parse, every
+   output of a mapped MapSpec has its shape / mask / storage class recorded under its output_name key and is stored
+   as an array of that shape, every other output is a single value.  Theorem C04_reload_eq_results is stated for
+   runs that pass this check; the model evaluates it on every correspondence case (last component of `run`). *)
+Definition skind_eqb (a b : skind) : bool :=
+  match a, b with FileArrayK, FileArrayK | DictK, DictK | SharedDictK, SharedDictK => true | _, _ => false end.
+
+Definition spec_consistentb (ri : run_info) (descs : list out_desc) (x : str) : bool :=
+  match parse x with
+  | Err _ => false
+  | Ok ms =>
+      let names := map aname (outs ms) in
+      match name_mapping_get (ri_shapes ri) names with
+      | None => false
+      | Some key =>
+          match ins ms with
+          | [] => true
+          | _ :: _ =>
+              match odict_get (ri_shapes ri) key, odict_get (ri_shape_masks ri) key, storage_class (ri_storage ri) key with
+              | Some sh, Some mask, Ok kind =>
+                  list_eqb str_eqb (at_least_tuple key) names
+                  && forallb (fun o => existsb (fun d => match d with
+                                                         | OMapped o' k' m' a =>
+                                                             str_eqb o o' && skind_eqb k' kind && list_eqb Bool.eqb m' mask
+                                                             && list_eqb Nat.eqb (shp a) sh && nd_wf a
+                                                             && (length mask =? length sh)
+                                                         | OSingle _ _ => false end) descs) names
+              | _, _, _ => false
+              end
+          end
+      end
+  end.
+
+Definition desc_consistentb (ri : run_info) (d : out_desc) : bool :=
+  let mapped := flat_map mapped_outs (ri_mapspecs ri) in
+  match d with
+  | OMapped o _ mask a => mem_str o mapped && nd_wf a && (length mask =? length (shp a))
+  | OSingle o _ => mem_str o (ri_all_output_names ri) && negb (mem_str o mapped)
+  end.
+
+Definition run_consistentb (root : str) (ri : run_info) (inputs : list (str * pyv)) (descs : list out_desc) : bool :=
+  wf_run_info ri && str_eqb (ri_run_folder ri) root
+  && list_eqb str_eqb (ri_input_names ri) (map fst inputs)
+  && forallb (fun n => negb (mem_char "/"%char n)) (ri_input_names ri)
+  && nodup_str_list (map od_name descs)
+  && forallb (spec_consistentb ri descs) (ri_mapspecs ri)
+  && forallb (desc_consistentb ri) descs.
+
+Definition finished_consistent (c : case) (f : finished) : bool :=
+  run_consistentb root_name (f_info f) (map (fun kv => (fst kv, PVal (snd kv))) (c_inputs c)) (f_outs f).
+
+(* observation:  ok [ [returned outputs; RunInfo of the run; inputs; defaults]; listing; load 1; load 2 | "same"; unchanged;
+                     model-side: the run passes finished_consistent (the implementation side reports the constant true) ] *)
 Definition run_with (legacy : bool) (c : case) : sx :=
   match finish legacy c with
   | Err e => SErr e
@@ -164,7 +221,8 @@ Definition run_with (legacy : bool) (c : case) : sx :=
       let '(l2, w2) := reload c w1 in
       SL [SS (s "ok");
           SL [ran; listing (f_world f); l1; (if sx_eqb l1 l2 then SS (s "same") else l2);
-              SB (files_eqb (w_files w) (w_files w2))]]
+              SB (files_eqb (w_files w) (w_files w2));
+              SB (finished_consistent c f)]]
   end.
 
 Definition run (c : case) : sx := run_with false c.
@@ -220,7 +278,7 @@ Definition spec_ok (c : case) (o : sx) : bool :=
   | Err _ => true
   | Ok d =>
       match o with
-      | SL [SS t; SL [SL [SL ran_outs; ran_info; ran_inputs; ran_defaults]; _; l1; l2; unchanged]] =>
+      | SL [SS t; SL [SL [SL ran_outs; ran_info; ran_inputs; ran_defaults]; _; l1; l2; unchanged; _]] =>
           str_eqb t (s "ok")
           (* (1) *)
           && sx_eqb (SL ran_outs) (SL (map (fun x => SL [SS (fst x); sx_val (snd x)]) (d_out d)))
